@@ -23,12 +23,17 @@ ff_grid_sound ff_grid_iff cached_iff_grid forced_ff_never_silently_skipped disab
 auto_ff_iff auto_no_omega_error extended_requires_pauli extended_iff recomputed_iff diag_wanted_iff
 diag_iff diag_cached_iff additional_rows addRows_iff error_iff no_other_errors early_return_nothing
 returned_iff input_side_effects inputs_untouched_of_not_pauli remap_keeps_diag remap_cm_iff
-remap_omega_iff remap_lazy_iff remap_not_pauli_blocks_auto'''.split()]
-LEAN_MODULES = ['FFVerif.Props.C05', 'FFVerif.Props.C05d']
-PINS = ['pinExtend', 'pinRemap']
+remap_omega_iff remap_lazy_iff remap_not_pauli_blocks_auto'''.split()] + [
+    'FFVerif.C05e.' + t for t in '''bisect_sorted insort_strict bisect_le_length first_step merge_step
+insert_step insert_keeps_chain_eq_registers length_mismatch extend_registers_sorted
+unsorted_block_counterexamples positions_before_merge slips_counterexamples
+idle_order_irrelevant'''.split()]
+LEAN_MODULES = ['FFVerif.Props.C05', 'FFVerif.Props.C05d', 'FFVerif.Props.C05e']
+PINS = ['pinExtend', 'pinRemap', 'pinMergeAttrs', 'pinInsertAttrs', 'pinDefaultExtendMapping',
+        'pinMapIdentifiers']
 GEN_SITES = ['einsum:numeric_calculate_filter_function_0',
              'einsum:numeric_calculate_control_matrix_from_scratch_0']
-COMPONENTS = ['pauli_equiv', 'extend_decision']
+COMPONENTS = ['pauli_equiv', 'extend_decision', 'extend_registers']
 RULES = ['correspondence: equivalent_pauli_basis_elements vs the Lean index map for all subsets, '
          'N <= 4 (the extension rules are theorems about the control-matrix model of C01); search: '
          'extend() on 1..3 single- and two-qubit pulses mapped to distinct, possibly '
@@ -60,8 +65,34 @@ def decision_correspondence(ctx):
                f'{len(mism)} of {n} decisions disagree; first: {mism[:2]}')
 
 
+def registers_correspondence(ctx):
+    """the real `_merge_attrs` / `_insert_attrs` called in the order of `extend` on Kronecker products
+    of distinguishable factors (the position of every factor is read off the result) vs the Lean
+    model `Registers`; plus the real `extend` vs an independent embedding reference"""
+    import os
+    import re
+    import subprocess
+    import sys
+    from ..common import VERIF
+    k = (150, 150, 10) if ctx.tier == 'quick' else (3000, 3000, 150)
+    out = subprocess.run([sys.executable, os.path.join(VERIF, 'tools', 'xcheck_registers.py'),
+                          *map(str, k), str(int(ctx.rng('registers').integers(1, 2**31)))],
+                         capture_output=True, text=True, timeout=3000)
+    line = [ln for ln in out.stdout.splitlines() if ln.startswith('xcheck_registers:')]
+    m = re.search(r'(\d+) driver requests.*mismatches: driver (\d+), extend (\d+)', line[-1]) if line else None
+    ok = out.returncode == 0 and m is not None and m.group(2) == '0' and m.group(3) == '0'
+    if m:
+        ctx.stat('register_requests', int(m.group(1)))
+        for _ in range(int(m.group(1))):
+            ctx.count()
+    ctx.oblige('correspondence:extend_registers', 'correspondence', ok,
+               (line[-1] if line else '') + ' ' + out.stdout[-600:] + out.stderr[-300:] if not ok else
+               (line[-1] if line else ''))
+
+
 def correspondence(ctx):
     decision_correspondence(ctx)
+    registers_correspondence(ctx)
     lines, refs = [], []
     for N in range(1, 5):
         for k in range(1, N + 1):
@@ -264,6 +295,16 @@ def search(ctx, deep=False):
     three = [a for a in pool[3] if len(a[0]) == 3]
     if ctx.tier == 'thorough' or deep:
         three += [a for a in pool[4] if any(len(q) == 3 for q in a)]
+    # five-qubit registers: two multi-qubit pulses interleaved with a single-qubit pulse or an idle
+    # qubit (the bookkeeping of the already merged registers is consulted again only then)
+    five = [[(0, 1), (2, 4), (3,)], [(3, 4), (2, 0), (1,)], [(0, 4), (1, 3)], [(1, 2), (0, 4), (3,)],
+            [(0, 2), (1, 4), (3,)], [(4, 1), (3, 0)]]
+    k5 = 2 if ctx.tier == 'quick' and not deep else len(five)
+    for a in [five[int(j)] for j in rng.choice(len(five), k5, replace=False)]:
+        check_extend(ctx, {'seed': int(rng.integers(0, 2**31)), 'N': 5, 'assign': [list(q) for q in a],
+                           'n_dt': 1, 'states': [str(rng.choice(['nothing', 'diag', 'ff'])) for _ in a],
+                           'cache_diag': True, 'cache_ff': [None, True][int(rng.integers(0, 2))],
+                           'additional': bool(rng.integers(0, 2)), 'traceless': True})
     for i in range(n):
         if i < len(three) and (ctx.tier == 'thorough' or deep or i < 6):
             a = three[i]
